@@ -108,6 +108,67 @@ def c_delimit_step(buf: bytes, chunk: bytes) -> str:
     return pick_dev(devs, ALLOWED)
 
 
+LA = part('la', 4)
+
+
+def c_delimit_three(a: bytes, b: bytes, c: bytes) -> str:
+    """
+    L1 over THREE reads (parser states reachable after two reads, e.g. a frame that was split and then turned out
+    undecodable): receive_data(a), receive_data(b), receive_data(c) on one parser == reference delimiter on a+b+c,
+    same residual.  Lengths LA, LB, LC fixed per process, contents symbolic.
+
+    pre: len(a) == LA and len(b) == LB and len(c) == LC
+    post: _ in ALLOWED
+    """
+    a = fixlen(a, LA)
+    b = fixlen(b, LB)
+    c = fixlen(c, LC)
+    saved = _fp.parse_or_ignore
+    _fp.parse_or_ignore = _stub_parse
+    try:
+        p = FrameParser()
+        out = []
+        runaway = False
+        for piece in (a, b, c):
+            got, r = drive_agen(p.receive_data(piece))
+            out += _norm(got)
+            runaway = runaway or r
+    finally:
+        _fp.parse_or_ignore = saved
+    devs = []
+    if runaway:
+        devs.append('parser-does-not-terminate')
+    want, rest = _ref_delimit(a + b + c)
+    if out != want:
+        devs.append('chunked-frames-differ-from-reference')
+    if bytes(p._buffer) != rest:
+        devs.append('chunked-residual-differs')
+    stats.note(len(want) >= 1, {'frames': len(want), 'la': LA, 'lb': LB, 'lc': LC})
+    return pick_dev(devs, ALLOWED)
+
+
+def c_parser_state_is_its_buffer(buf: bytes) -> str:
+    """
+    Representation invariant behind the induction of L1: after any read the parser's only state is its buffer (an
+    extra attribute would be parser state that the one-step lemma does not quantify over).
+
+    pre: len(buf) <= 7
+    post: _ in ALLOWED
+    """
+    p = FrameParser()
+    saved = _fp.parse_or_ignore
+    _fp.parse_or_ignore = _stub_parse
+    try:
+        drive_agen(p.receive_data(buf))
+    finally:
+        _fp.parse_or_ignore = saved
+    stats.note(True)
+    names = sorted(vars(p).keys())
+    if names != ['_buffer']:
+        return 'parser-carries-state-beyond-its-buffer:' + ','.join(n for n in names if n != '_buffer')
+    return ''
+
+
 # ------------------------------------------------------------------------------------------------ L2
 def _sig(f):
     if isinstance(f, InvalidFrame):
@@ -176,7 +237,9 @@ def _streams():
             break
         parts += _w(fr)
     s3 = parts + zero + zero + _w(to_request_n_frame(9, 1))
-    return [s0, s1, s2, s3]
+    big_unknown = struct.pack('>I', 26)[1:] + struct.pack('>IH', 3, 0x3F << 10) + b'U' * 20
+    s4 = (_w(to_request_n_frame(3, 2)) + big_unknown + _w(to_cancel_frame(3)))      # short frame after a long undecodable one, then silence
+    return [s0, s1, s2, s3, s4]
 
 
 with new_loop():            # frame builders create futures: keep them off a real selector loop
@@ -234,7 +297,7 @@ def c_cut_once(c: int) -> str:
     want, wrest = ONE[SI]
     got, rest, done, loop = _through_tcp([s[:c], s[c:]], RB)
     devs = []
-    if not done or loop.livelock or loop.exc:
+    if not done or loop.livelock or loop.errors():
         devs.append('receiver-did-not-finish-cleanly')
     if got != want:
         devs.append('frames-depend-on-chunking')
@@ -255,7 +318,7 @@ def c_cut_twice(c2: int) -> str:
     want, wrest = ONE[SI]
     got, rest, done, loop = _through_tcp([s[:C1], s[C1:c2], s[c2:]], RB)
     devs = []
-    if not done or loop.livelock or loop.exc:
+    if not done or loop.livelock or loop.errors():
         devs.append('receiver-did-not-finish-cleanly')
     if got != want:
         devs.append('frames-depend-on-chunking')
@@ -277,7 +340,7 @@ def c_read_sizes(rb: int) -> str:
     want, wrest = ONE[SI]
     got, rest, done, loop = _through_tcp([s], rb)
     devs = []
-    if not done or loop.livelock or loop.exc:
+    if not done or loop.livelock or loop.errors():
         devs.append('receiver-did-not-finish-cleanly')
     if got != want:
         devs.append('frames-depend-on-chunking')
@@ -291,12 +354,12 @@ def w_streams_interesting(i: int) -> bool:
     """
     witness: the concrete streams really contain invalid markers, >= 5 frames and a fragmented frame
 
-    pre: 0 <= i <= 3
+    pre: 0 <= i <= 4
     post: not _
     """
-    i = conc(i, 0, 3)
+    i = conc(i, 0, 4)
     sigs, rest = _one_shot(STREAMS[i])
-    return len(sigs) >= 4 and rest == b'' and ('INVALID' in sigs or i == 3)
+    return len(sigs) >= 3 and rest == b'' and ('INVALID' in sigs or i == 3)
 
 
 # ------------------------------------------------------------------------------------------------ message mode
@@ -347,10 +410,10 @@ def c_message_real(i: int) -> str:
     """
     Message mode with the real decoder on every frame of the concrete streams (each frame body = one message).
 
-    pre: 0 <= i <= 3
+    pre: 0 <= i <= 4
     post: _ in ALLOWED
     """
-    i = conc(i, 0, 3)
+    i = conc(i, 0, 4)
     s = STREAMS[i]
     devs = []
     n = 0
